@@ -1077,3 +1077,42 @@ func ruleRemovalStepIdempotent(c *report.Ctx) {
 		}
 	}
 }
+
+// ruleChildPure (C14): child derivation reads its parent and writes nothing into it except the memoised public key.
+func ruleChildPure(c *report.Ctx) {
+	p := c.P
+	c.Rule("derivation-pure", "Child / Neuter / String / ECPubKey derive from the receiver without storing into it (only the idempotent public-key memo): a derived key is a function of (parent, index), not of earlier or concurrent derivations", 4)
+	ek := p.Type(pkgHD, "ExtendedKey")
+	if ek == nil {
+		c.Lost("hdkeychain.ExtendedKey")
+		return
+	}
+	allowed := map[string]string{"pubKey": "idempotent memo of the compressed public key of a private key"}
+	c.Exception("ExtendedKey.pubKey", allowed["pubKey"])
+	for _, name := range []string{"Child", "Neuter", "String", "ECPubKey", "ECPrivKey", "pubKeyBytes", "ParentFingerprint", "IsPrivate", "Depth"} {
+		f := p.Fn(pkgHD, "ExtendedKey", name)
+		if f == nil {
+			continue
+		}
+		bad := false
+		an.Instrs(f, func(in ssa.Instruction) {
+			st, ok := in.(*ssa.Store)
+			if !ok {
+				return
+			}
+			fa, ok := st.Addr.(*ssa.FieldAddr)
+			if !ok || len(f.Params) == 0 || fa.X != ssa.Value(f.Params[0]) {
+				return
+			}
+			fname := derefStructT(fa.X.Type()).Field(fa.Field).Name()
+			if _, isOK := allowed[fname]; isOK {
+				return
+			}
+			bad = true
+			c.Fail(sk(f)+":stores:"+fname, sk(f)+" stores into its receiver's field "+fname+": derivation now depends on (and races with) other derivations from the same key object, so a child key or chain code can differ from the BIP-32 value", posOf(c, in))
+		})
+		if !bad {
+			c.OK(sk(f), "no store into the receiver beyond the public-key memo", p.Pos(f.Pos()))
+		}
+	}
+}
